@@ -35,7 +35,8 @@ def plan(tier, seed):
     items = W.cost_table()
     # cost here is dominated by the number of variants, not signatures
     items = [(n, d, 1) for n, d, _ in items]
-    return [{"i": i, "items": b} for i, b in enumerate(W.pack(items, NSHARDS[tier]))] + [{"mutate": True, "dim": d} for d in (2, 3, 4)]
+    return [{"i": i, "items": b} for i, b in enumerate(W.pack(items, NSHARDS[tier]))] + [{"mutate": True, "dim": d} for d in (2, 3, 4)] + \
+        [{"outforms": True, "dim": d} for d in (2, 3, 4)]
 
 
 def run_mutated(spec, tier, seed):
@@ -119,9 +120,106 @@ def run_mutated(spec, tier, seed):
     return res
 
 
+def run_outforms(spec, tier, seed):
+    """the `out=` spelling of the vector-valued ufuncs (numpy.add / subtract / multiply / true_divide / negative with
+    out=array): afterwards element i of `out`, read by field *name*, is the object-backend result for element i,
+    whatever the field order / dtype / memory layout / coordinate system of `out` -- or the call raises; it never files
+    numbers under the wrong names.  The returned array is judged too."""
+    import numpy
+
+    from .. import backends as B
+    from .. import gen
+    from .. import refmodel as R
+    from ..engine import LVec
+
+    res = Result()
+    dim = spec["dim"]
+    r = gen.rng(seed, "C03out", dim)
+    n = 4
+    tol = 1e-11
+
+    def rows_for(system, mom):
+        ls = []
+        while len(ls) < n:
+            rv, _ = gen.vec4(r, core=True, causal="timelike", forward=True) if dim == 4 else gen.vec(r, dim, core=True)
+            try:
+                l = LVec(rv, system, mom)
+                l.exact_coords()
+                ls.append(l)
+            except R.NotRepresentable:
+                pass
+        return [tuple(l.f64()[0]) for l in ls]
+
+    def cart(v):
+        return [float(getattr(v, c)) for c in ("x", "y", "z", "t")[:dim]]
+
+    systems = R.SYSTEMS[dim]
+    for si, asys in enumerate(systems):
+        bsys = systems[(si * 5 + 1) % len(systems)]
+        mom = si % 2 == 0
+        ra, rb = rows_for(asys, mom), rows_for(bsys, False)
+        a, b = B.mk_numpy_cls(asys, ra, mom), B.mk_numpy_cls(bsys, rb, False)
+        oa, ob = [B.mk_obj(asys, row, mom) for row in ra], [B.mk_obj(bsys, row, False) for row in rb]
+        forms = {
+            "numpy.add": (lambda o: numpy.add(a, b, out=o), lambda i: oa[i].add(ob[i]), lambda: a.add(b)),
+            "numpy.subtract": (lambda o: numpy.subtract(a, b, out=o), lambda i: oa[i].subtract(ob[i]), lambda: a.subtract(b)),
+            "numpy.multiply": (lambda o: numpy.multiply(a, 1.5, out=o), lambda i: oa[i].scale(1.5), lambda: a.scale(1.5)),
+            "numpy.true_divide": (lambda o: numpy.true_divide(a, 4.0, out=o), lambda i: oa[i].scale(0.25), lambda: a.scale(0.25)),
+            "numpy.negative": (lambda o: numpy.negative(a, out=o), lambda i: oa[i].scale(-1), lambda: a.scale(-1)),
+        }
+        if asys[-1] == "tau":
+            forms.pop("numpy.negative")
+            forms.pop("numpy.subtract")
+        for fname, (call, objres, meth) in forms.items():
+            want = [cart(objres(i)) for i in range(n)]
+            scale = max(1.0, max(abs(c) for w in want for c in w))
+            proto = numpy.asarray(meth()).view(numpy.ndarray)
+            rnames = list(proto.dtype.names)
+            cls = type(meth())
+            layouts = {
+                "same-as-result": [(nm, "<f8") for nm in rnames],
+                "fields-reversed": [(nm, "<f8") for nm in reversed(rnames)],
+                "fields-rotated": [(nm, "<f8") for nm in rnames[1:] + rnames[:1]],
+                "big-endian": [(nm, ">f8") for nm in rnames],
+                "extra-field-first": [("weight", "<f8")] + [(nm, "<f8") for nm in rnames],
+            }
+            other = systems[(si + 3) % len(systems)]
+            if R.field_names(other) != tuple(rnames) and set(R.field_names(other)) != set(rnames):
+                layouts["other-coordinate-system"] = [(nm, "<f8") for nm in R.field_names(other)]
+            for lname, dt in layouts.items():
+                res.evaluations += 1
+                cell = f"{fname}|{R.sysname(asys)}|{R.sysname(bsys)}|{lname}"
+                out = numpy.full(n, -7.25, dtype=dt).view(cls)
+                try:
+                    ret = call(out)
+                except Exception as e:
+                    if lname in ("other-coordinate-system", "extra-field-first"):
+                        res.cell("outform-raises", cell)   # refusing is fine; mislabelling is not
+                    else:
+                        res.violation(f"C03/ufunc-out-form-raises form={fname} out-layout={lname}", {"cell": cell, "exc": f"{type(e).__name__}: {e}"[:200]})
+                    continue
+                for what, arr in (("out", out), ("returned", ret)):
+                    try:
+                        got = [cart(arr[i]) for i in range(n)]
+                    except Exception as e:
+                        res.violation(f"C03/ufunc-out-form-leaves-unusable-array form={fname} out-layout={lname}", {"cell": cell, "which": what, "exc": f"{type(e).__name__}: {e}"[:200]})
+                        continue
+                    bad = [(i, g, w) for i, (g, w) in enumerate(zip(got, want)) if any(not abs(x - y) <= tol * scale for x, y in zip(g, w))]
+                    if bad:
+                        res.violation(f"C03/ufunc-out-form-element-differs-from-object-backend form={fname} out-layout={lname} which={what}",
+                                      {"cell": cell, "row": bad[0][0], "got": bad[0][1], "expected": bad[0][2], "out_fields": [d_[0] for d_ in dt]})
+                if lname == "extra-field-first" and not numpy.all(numpy.asarray(out).view(numpy.ndarray)["weight"] == -7.25):
+                    res.violation(f"C03/ufunc-out-form-overwrites-extra-field form={fname}", {"cell": cell})
+                res.cell("outform", cell)
+    res.sample({"part": "out= forms", "dim": dim, "layouts": list(layouts), "forms": list(forms)})
+    return res
+
+
 def run_shard(spec, tier, seed):
     if spec.get("mutate"):
         return run_mutated(spec, tier, seed)
+    if spec.get("outforms"):
+        return run_outforms(spec, tier, seed)
     res = Result()
     sweep.run(spec["items"], tier, seed, res, "C03")
     return res
